@@ -129,7 +129,7 @@ func startOf(toks []xml.Token) (xml.StartElement, error) {
 func runStanza(kind string, v Rec, o *Obs) {
 	var ops stanzaOps
 	if msg := guard(func() error { ops = buildStanza(kind, v); return nil }); msg != "" {
-		o.Enc = append(o.Enc, EncObs{P: "build", TL: tls.id([]Tok{}), Err: msg})
+		o.Enc = append(o.Enc, EncObs{P: "build", TL: tls.id([]Tok{}), Err: msg, F: failKind(msg)})
 		return
 	}
 	// path 1: the standard marshaller
